@@ -180,6 +180,27 @@ Theorem C11_factorisation_current :
 Proof. exact (fun K N ops au => @factorisation_current K N ops au). Qed.
 Print Assumptions C11_factorisation_current.
 
+(* FULL CLAUSE (not proved): "the sparse path returns the requested number of eigenvalues closest to the shift".
+   That ARPACK's shift-invert iteration converges to the k eigenvalues nearest sigma is run-time behaviour of the
+   library (validated on every run against an independent dense spectrum).  PROVED PART: in every reachable state the
+   module requests k = nmodes (default 6) eigenvalues around sigma (default 0) with the current shift-invert
+   operator, and returns exactly the library's eigenvalues, reordered (none dropped, none duplicated). *)
+Theorem C11_sparse_selection_partial :
+  forall (K : Type) (N : Num K) (ops : EigOps K) (auto_solver : mat -> bool -> nat),
+    (forall a b, kleb ops a b = true \/ kleb ops b a = true) ->
+  forall (hermitian : option bool) (nmodes : option Z) (sigma : option K) (mode : nat) (os : list op)
+         (p : pencil) (st' : estate) (c : libcall),
+    let st := run_state ops auto_solver (prepare hermitian nmodes sigma mode) os in
+    response ops auto_solver st p = (st', Ok c) -> pencil_sparse p = true ->
+    cK c = Some (match sNmodes st with None => 6%Z | Some k => k end) /\
+    cSigma c = Some (match sSigma st with None => nzero | Some s => s end) /\
+    (exists kind, cOPinv c = Some (kind, Some (shifted_of ops (sSigma st) p))) /\
+    forall (W : list K) (Qm : mat) (W' : list K) (Q' : mat),
+      postprocess ops (sort_default ops) (pB p) W Qm = Ok (W', Q') ->
+      length W' = length W /\ Permutation W' W.
+Proof. exact (fun K N ops au => @sparse_selection_partial K N ops au). Qed.
+Print Assumptions C11_sparse_selection_partial.
+
 (* ---- non-vacuity ---------------------------------------------------------------------------------- *)
 (* a concrete real instance meets the premises (contract, positivity) and runs through all clauses *)
 Example C11_nonvacuous_real :
